@@ -138,6 +138,19 @@ def op_orthonormalize(eng, task):
     return dict(results=[(x, cls, 'orthonormalized')], snap=snapshot([x.qd]), operands=[], pure=False, boundary=(x, old, nrm), inputs=inputs, state_zero=sz)
 
 
+def op_zero_qnumbers(eng, task):
+    """zero_qnumbers() on an arbitrary block-sparse object (in particular with a non-zero total charge): afterwards every list is zero,
+    so the invariant holds trivially - unless a list was forgotten"""
+    d, P, cls = task['d'], task['D'], task['cls']
+    qd, (qD,) = mk_charges(eng, task, d, [P])
+    if task.get('free_boundary'):
+        qD[-1] = eng.sym_array('qtot', (1,), 'int')
+    x = (tn.sym_mps if cls == 'mps' else tn.sym_mpo)(eng, 'A', d, P, qd, qD)
+    inputs = dict(op='zero_qnumbers', cls=cls, x=tn.mps_json(x))
+    x.zero_qnumbers()
+    return dict(results=[(x, cls, 'zero_qnumbers')], snap=snapshot([]), operands=[], pure=False, inputs=inputs)
+
+
 def op_compress(eng, task):
     d, P, mode = task['d'], task['D'], task['mode']
     qd, (qD,) = mk_charges(eng, task, d, [P])
@@ -302,7 +315,8 @@ def op_identity(eng, task):
 
 
 OPS = dict(constructor=op_constructor, orthonormalize=op_orthonormalize, compress=op_compress, binary=op_binary, split=op_split,
-           from_vector=op_from_vector, tdvp=op_tdvp, dmrg=op_dmrg, hamiltonian=op_hamiltonian, identity=op_identity)
+           from_vector=op_from_vector, tdvp=op_tdvp, dmrg=op_dmrg, hamiltonian=op_hamiltonian, identity=op_identity,
+           zero_qnumbers=op_zero_qnumbers)
 
 
 def op_tasks(tier):
@@ -320,6 +334,9 @@ def op_tasks(tier):
             if not q:
                 ts.append(dict(name=f'orthonormalize_{cls}_{mode}_L3', op='orthonormalize', cls=cls, mode=mode, d=2, D=(1, 2, 1, 1) if cls == 'mps' else (1, 1, 1, 1), cut=10))
         ts.append(dict(name=f'orthonormalize_{cls}_left_pairq', op='orthonormalize', cls=cls, mode='left', d=4 if cls == 'mps' else 2, D=(1, 2, 1) if cls == 'mps' else (1, 1, 1), qmode='pair', cut=8))
+    for cls in ('mps', 'mpo'):
+        ts.append(dict(name=f'zero_qnumbers_{cls}_L2', op='zero_qnumbers', cls=cls, d=2, D=(1, 2, 1) if cls == 'mps' else (1, 1, 1), free_boundary=True, cut=8))
+        ts.append(dict(name=f'zero_qnumbers_{cls}_L1', op='zero_qnumbers', cls=cls, d=2, D=(1, 1), free_boundary=True, cut=8))
     for mode in ('left', 'right'):
         ts.append(dict(name=f'compress_{mode}_L1', op='compress', mode=mode, d=2, D=(1, 1), cut=8))
         ts.append(dict(name=f'compress_{mode}_L2', op='compress', mode=mode, d=2, D=(1, 1, 1) if q else (1, 2, 1), cut=10))
